@@ -1227,18 +1227,22 @@ class WCS(GWCSAPIMixin):
             raise ValueError("Could not insert frame as neither frame "
                              f"{input_name} nor {output_name} exists")
 
+        # build the new pipeline and expose the new frame under its name
+        # before anything is changed: if either is refused (a transform that
+        # is not a model, the name of a read-only property) nothing is changed
         if input_index is None:
-            self._pipeline = (self._pipeline[:output_index] +
-                              [Step(input_frame_obj, transform)] +
-                              self._pipeline[output_index:])
+            pipeline = (self._pipeline[:output_index] +
+                        [Step(input_frame_obj, transform)] +
+                        self._pipeline[output_index:])
             super(WCS, self).__setattr__(input_name, input_frame_obj)
         else:
             split_step = self._pipeline[input_index]
-            self._pipeline = (self._pipeline[:input_index] +
-                              [Step(split_step.frame, transform),
-                               Step(output_frame_obj, split_step.transform)] +
-                              self._pipeline[input_index + 1:])
+            pipeline = (self._pipeline[:input_index] +
+                        [Step(split_step.frame, transform),
+                         Step(output_frame_obj, split_step.transform)] +
+                        self._pipeline[input_index + 1:])
             super(WCS, self).__setattr__(output_name, output_frame_obj)
+        self._pipeline = pipeline
         self._approx_inverse = None
 
     @property
